@@ -14,9 +14,28 @@ def run(tier):
     for cfg in CFGS[tier]:
         rp.run_lens("SumProduct", cfg=cfg)
     out.add_replay(rp, "sumproduct")
+    # the implementation-shaped model of the elimination loop (TLC: refines the oracle for every
+    # tie-break), bound to the code through the recorded _partition calls
+    rm = replay.Replay("harness.modes:c09calls")
+    for cfg in (["PspModel"] if tier == "quick" else ["PspModel", "PspModel_logaddexp"]):
+        rm.run_lens("PspModel", cfg=cfg)
+    out.machinery.extend(rm.machinery)
+    by_problem = {}
+    for e in rm.events:
+        by_problem.setdefault(e["problem"], []).append(e)
+    unmatched = {k: v for k, v in by_problem.items() if not any(e["match"] for e in v)}
+    for k, v in sorted(unmatched.items()):
+        out.violations.append({"prop": "C09", "clause": "loop_not_a_model_behaviour", "sig": k, "engine": "pspmodel",
+                               "detail": {"outcome": v[0]["outcome"], "calls": v[0]["calls"],
+                                          "model_outcomes": sorted({e["model_outcome"] for e in v}),
+                                          "model_calls_one": v[0]["model_calls"]}})
     out.coverage = check.replay_coverage(
         rp, "every plated factor graph within the cfg bounds (factors over subsets of the variables and plates, in "
             "canonical order) x every eliminate set: sum_product, partial_sum_product in one call and in every valid "
             "split into two calls, modified_/dynamic_partial_sum_product with empty steps, plated einsum; oracle = the "
             "unrolled L1 term evaluated by TLC")
+    out.coverage["states"] += rm.states
+    out.coverage["transitions"] += rm.transitions
+    out.coverage["loop_model"] = {"tlc_states": rm.states, "problems": len(by_problem),
+                                  "terminal_model_behaviours": len(rm.events), "problems_unmatched": len(unmatched)}
     return out.finish()
